@@ -56,8 +56,9 @@ def _arg_slice(off: int, width: int) -> pt.Expr:
 class EncodeBuilder:
     """builds the ABI value of type t from its parts with set(...)"""
 
-    def __init__(self, t, lens: List[int], literal: Optional[Any] = None, int_exprs: bool = False):
+    def __init__(self, t, lens: List[int], literal: Optional[Any] = None, int_exprs: bool = False, expr_forms: bool = False):
         self.t = t
+        self.expr_forms = expr_forms    # integer / bool leaves from value-preserving expressions of different AST classes
         self.layout: List[Tuple] = []
         leaf_layout(t, LenPlan(lens), self.layout)
         self.total = (self.layout[-1][3] + self.layout[-1][4]) if self.layout else 0
@@ -96,7 +97,13 @@ class EncodeBuilder:
             else:
                 src = _arg_slice(off, width)
                 if kind in ("uint", "bool"):
-                    self.steps.append(inst.set(pt.Btoi(src)))
+                    val = pt.Btoi(src)
+                    if self.expr_forms:
+                        forms = [lambda x: pt.BitwiseAnd(x, pt.Int(2 ** 64 - 1)), lambda x: pt.Minus(x, pt.Int(0)), lambda x: pt.Add(x, pt.Int(0)),
+                                 lambda x: pt.Div(x, pt.Int(1)), lambda x: pt.BitwiseOr(x, pt.Int(0)), lambda x: pt.ShiftRight(x, pt.Int(0)),
+                                 lambda x: pt.Seq(pt.Pop(pt.Int(1)), x), lambda x: pt.If(pt.Int(1), x, pt.Int(0)), lambda x: pt.BitwiseXor(x, pt.Int(0))]
+                        val = forms[(self._li - 1) % len(forms)](val)
+                    self.steps.append(inst.set(val))
                 else:
                     self.steps.append(inst.set(src))
             return inst
@@ -116,10 +123,10 @@ class EncodeBuilder:
         raise ValueError(t)
 
 
-def encode_program(t, lens: List[int], backend: str, literal=None, int_exprs: bool = False) -> pt.Expr:
+def encode_program(t, lens: List[int], backend: str, literal=None, int_exprs: bool = False, expr_forms: bool = False) -> pt.Expr:
     """main-routine (scratch) or subroutine (frame at v8+) program that logs value.encode()"""
     def body():
-        b = EncodeBuilder(t, lens, literal, int_exprs)
+        b = EncodeBuilder(t, lens, literal, int_exprs, expr_forms)
         root = b.build()
         return pt.Seq(*b.steps, pt.Log(root.encode()))
 
@@ -129,7 +136,7 @@ def encode_program(t, lens: List[int], backend: str, literal=None, int_exprs: bo
     if backend == "abiret":
         # the value is assembled inside an ABIReturnSubroutine and handed back through its output
         def build_into(*, output):
-            b = EncodeBuilder(t, lens, literal, int_exprs)
+            b = EncodeBuilder(t, lens, literal, int_exprs, expr_forms)
             b.build(into=output)
             return pt.Seq(*b.steps)
         build_into.__annotations__ = {"output": T.to_spec(t).annotation_type(), "return": pt.Expr}
